@@ -4,6 +4,29 @@ NOT_BUILT_REASON = ('check not built yet in this session (work in progress; the 
 NOT_APPLICABLE = {}
 
 TEXTS = {
+    'C13': {
+        'level': 'Seeded search over message sequences x kernel behaviours: the real Connection framing/send/recv '
+                 'loops run over simulated pipes and socket pairs whose reads and writes are split at '
+                 'scheduler-chosen byte counts, interrupted with EINTR, throttled by 64B..64KiB buffers, and whose '
+                 'peer closes at chosen byte offsets (header / payload / boundary); FIFO reference model of whole '
+                 'messages checked per receive (recv_bytes, recv_bytes_into, recv, poll), plus argument/state '
+                 'checks that must fail before any I/O (kernel I/O counter). Sampling, not proof.',
+        'ref': 'DESIGN.md 5 (C13), 4 (S-CONN)',
+        'note': 'Trusted: a pipe/stream socket is a reliable byte FIFO as modelled by simos.kernel (cross-checked '
+                'against os.pipe by selftest/conformance.py). Lengths near 2**31-1 are not allocated.',
+    },
+    'C18': {
+        'level': 'Seeded search over key pairs (equal, one bit apart, prefix/extension, case, random, 1B..4KiB), '
+                 'honest x honest and honest x hostile handshakes on a simulated stream socket: the hostile side '
+                 'sends at each step a scripted message (correct/truncated/extended/bit-flipped/other-key/replayed '
+                 'digest, early WELCOME/FAILURE, oversize, empty, close, malformed challenge); oracle: a connection '
+                 'is returned iff the peer produced exactly HMAC(key, this connection\'s challenge) and the expected '
+                 'verdicts, both sides fail with AuthenticationError on different keys, each challenge is a fresh '
+                 'urandom(20) value that really went over the wire, non-bytes keys raise TypeError unused.',
+        'ref': 'DESIGN.md 5 (C18), 4 (S-AUTH)',
+        'note': 'Trusted: hmac/md5 from the standard library; cryptographic strength of HMAC-MD5 and relay of a '
+                'digest computed by another honest key holder are outside the check.',
+    },
     'C17': {
         'level': 'Seeded search over schedules (pre-emption at every semaphore operation; timeouts fire at '
                  'scheduler-chosen instants) of billiard.synchronize Condition/Event/Lock/Semaphore code running '
